@@ -54,7 +54,7 @@ def rand_atom(rng):
         return Char(rng.choice(["a", "Z", "0", "(", ")", ";", "\"", "#", "\\", "|", "'", ".", "+"]))
     if rng.random() < 0.5:
         # random strings over characters that matter to a lexer, line ends of every kind included
-        return "".join(rng.choice(["a", "b", " ", "\"", "\\", "\n", "\r", "\r\n", "\t", "\a", "|", ";", "(", ")", "#", "'", "n", "\\n"]) for _ in range(rng.randint(0, 6)))
+        return "".join(rng.choice(["a", "b", " ", "\"", "\\", "\n", "\r", "\r\n", "\t", "\a", "|", ";", "(", ")", "#", "'", "n", "\\n", "\n#!", "\n;", "\n#|", "!"]) for _ in range(rng.randint(0, 6)))
     return rng.choice(["", "s", "two words", "q\"uote", "back\\slash", "new\nline", "tab\there", "bell\a", "bar|", "semi;colon", "(paren)", "\r", "\b"])
 
 
@@ -381,8 +381,58 @@ def run(tier, seed):
                 ctx.violation({"what": "text does not read back as the datum its tokens denote", "kind": "read", "text": text, "observed": val if kind != "ok" else val,
                                "dedupe": "read|%s|%s" % (kind, (val or {}).get("kind") if isinstance(val, dict) else "")}, {"text": text})
     ctx.legs.append("reader-trees")
+    # ---------------- (d) the same kind of trees read from a program FILE (the file reader hands the text to the same lexer line by line)
+    import os, tempfile, shutil
+    fdir = tempfile.mkdtemp(prefix="c06-", dir=core.TMP)
+    fjobs, fmeta = [], []
+    ftrees = [t for t in cases if "\r" not in tree_text(t)][: 600 if tier == "quick" else 6000]      # the file reader normalises CR LF: keep CR out of this leg
+    for k in range(0, len(ftrees), 40):
+        chunk = ftrees[k:k + 40]
+        lines = ["(import (scheme base))"]
+        for i, t in enumerate(chunk):
+            lines.append("(define r%d '%s)" % (i, layout(tokens_of(t, rng), rng, rng.choice(["tight", "loose"])).replace("\r\n", "\n")))
+        path = os.path.join(fdir, "f%d.scm" % k)
+        open(path, "w", newline="").write(rng.choice(["\n", "\n\n", "\n  "]).join(lines) + rng.choice(["", "\n"]))
+        fjobs.append({"id": "c06f-%d" % k, "interps": [{"stdlib": False, "natives": False}], "steps": [{"file": path}] + [{"src": "r%d" % i} for i in range(len(chunk))], "fuel": 2000})
+        fmeta.append(chunk)
+    frecs = core.run_jobs(fjobs, "dev", timeout=900, tag="c06f")
+    for chunk, rec, job in zip(fmeta, frecs, fjobs):
+        if rec is None or "steps" not in rec:
+            ctx.inconclusive_cases += len(chunk); continue
+        k0, v0 = core.outcome(rec["steps"][0])
+        if k0 != "ok":
+            ctx.violation({"what": "a program file of quoted data was not read", "kind": "read-file", "observed": v0, "dedupe": "file|%s" % (v0.get("kind") if isinstance(v0, dict) else k0)},
+                          {"file_text": open(job["steps"][0]["file"]).read()[:3000]})
+            continue
+        for i, (t, st) in enumerate(zip(chunk, rec["steps"][1:])):
+            ctx.evaluations += 1
+            kind, val = core.outcome(st)
+            if kind == "ok" and value_matches(model_of(t), val, machine):
+                ctx.count("file_data_agree")
+            else:
+                ctx.violation({"what": "a datum read from a program file is not the datum its tokens denote", "kind": "read-file", "datum_index": i, "observed": val,
+                               "dedupe": "filedatum|%s" % kind}, {"file_text": open(job["steps"][0]["file"]).read()[:3000], "index": i})
+    shutil.rmtree(fdir, ignore_errors=True)
+    ctx.legs.append("reader-files")
     ctx.sample({"tree_rendering": meta[0][0][1], "another": meta[0][1][1]}); ctx.sample({"strings": strings[5000:5010]})
     return ctx.finish(min_evals=1000, min_nontrivial=100)
+
+
+def tree_text(t):
+    """all character data of a tree (to look for characters a leg cannot carry)"""
+    if isinstance(t, tuple):
+        return t[1]
+    if isinstance(t, str):
+        return t
+    if isinstance(t, Char):
+        return t.ch
+    if isinstance(t, (list,)):
+        return "".join(tree_text(x) for x in t)
+    if isinstance(t, Vec):
+        return "".join(tree_text(x) for x in t.items)
+    if isinstance(t, Dot):
+        return "".join(tree_text(x) for x in t.items) + tree_text(t.tail)
+    return ""
 
 
 def classify_tok(t):
